@@ -5,7 +5,7 @@
    arbitrary Check/Process failure oracles fc/fp (which may depend on the whole log so far). *)
 From Coq Require Import NArith List.
 From LV Require Import model.Buffer spec.BufferSpec proofs.BufferInv proofs.BufferTheorems proofs.BufferOld
-  proofs.BufferComplete2 proofs.BufferSpecProofs proofs.BufferTop.
+  proofs.BufferComplete2 proofs.BufferSpecProofs proofs.BufferTop proofs.BufferT5Check.
 Import ListNotations.
 Local Open Scope N_scope.
 
@@ -61,6 +61,13 @@ Theorem C14_model_passes_checkers_T3_T4 : forall fc fp limN limS ops,
   t3_walk (copies_of ops) [] [] (hist fc fp limN limS ops) = true
   /\ t4_walk limN limS (hist fc fp limN limS ops) = true.
 Proof. exact model_passes_t3_t4. Qed.
+
+(* the WHOLE executable specification (all five clauses, T5 included) accepts every history of
+   the model, for every oracle: for T5 this uses that a run in whose log nothing failed is the run
+   with never-failing oracles, and that the checker's peeling of the DAG yields a rank *)
+Theorem C14_model_passes_c14_check : forall fc fp limN limS ops,
+  c14_check limN limS ops (hist fc fp limN limS ops) = true.
+Proof. exact model_passes_c14_check. Qed.
 
 (* SOUNDNESS of the checkers that the driver runs on the IMPLEMENTATION's log: on an arbitrary
    log l (oldest first) and copies table cs, checker = true implies the statement *)
@@ -154,6 +161,7 @@ Print Assumptions C14_fuel_suffices.
 Print Assumptions C14_T5_complete.
 Print Assumptions C14_model_passes_checkers_T1_T2.
 Print Assumptions C14_model_passes_checkers_T3_T4.
+Print Assumptions C14_model_passes_c14_check.
 Print Assumptions C14_checker_T1_sound.
 Print Assumptions C14_checker_T2_sound.
 Print Assumptions C14_checker_T3_sound.
